@@ -95,7 +95,10 @@ fn fast_bitmap_transfer(buffer: &mut Vec<u32>, width: usize, bitmap: BitmapEvent
     unsafe {
         let data_aligned :Vec<u32> = transmute_vec(data);
         for i in 0..(bitmap_dest_bottom - bitmap_dest_top + 1) {
-            let dest_i = (i + bitmap_dest_top) * width + bitmap_dest_left;
+            let dest_i = match (i + bitmap_dest_top).checked_mul(width).and_then(|v| v.checked_add(bitmap_dest_left)) {
+                Some(v) => v,
+                None => return Err(Error::RdpError(RdpError::new(RdpErrorKind::InvalidSize, "Image have invalide size")))
+            };
             let src_i = i * bitmap_width;
             let count = bitmap_dest_right - bitmap_dest_left + 1;
             if dest_i > buffer.len() || dest_i + count > buffer.len() || src_i > data_aligned.len() || src_i + count > data_aligned.len() {
